@@ -194,6 +194,7 @@ type z3Scenario struct {
 	Challenge []string `json:"challenge,omitempty"`
 	Cancel    bool     `json:"cancel,omitempty"`
 	Prior     bool     `json:"prior,omitempty"`
+	Dup       bool     `json:"dup,omitempty"`    // the manifest names the first layer's digest twice (same bytes under two media types)
 	Second    bool     `json:"second,omitempty"` // a second concurrent pull of a model sharing the layer
 	Faulty    int      `json:"faulty_attempts"`
 	Cap       int      `json:"quick_total_cap,omitempty"` // quick tier: total deviations for this scenario (0: the default)
@@ -231,6 +232,11 @@ func z3Body(sc z3Scenario) func() {
 			mcos.E.Frozen = false
 		}
 		served := w.publish("lib/model:tag", sc.Layers, sc.Config, 3)
+		if sc.Dup {
+			served.Layers = append(served.Layers, ztLayer{"application/vnd.ollama.image.license", served.Layers[0].Digest, served.Layers[0].Size})
+			b, _ := json.Marshal(served)
+			srv.Manifests["lib/model:tag"] = b
+		}
 		if sc.Second {
 			// another tag sharing the first layer
 			m2 := ztManifest{SchemaVersion: 2, MediaType: served.MediaType, Layers: served.Layers[:1]}
@@ -350,6 +356,7 @@ func z3Scenarios(thorough bool) []z3Scenario {
 		{Name: "replace-tag", Layers: []int{10, 3}, Prior: true, Faults: []string{"500", "truncate", "flip"}, Faulty: 1, Cap: 1},
 		{Name: "shared-layer", Layers: []int{10}, Second: true, Faults: []string{"500", "truncate"}, Faulty: 1, Cap: 1},
 		{Name: "empty-layer", Layers: []int{0, 3}, Faults: []string{"500"}, Faulty: 1},
+		{Name: "same-digest-twice", Layers: []int{3, 5}, Dup: true, Faults: []string{"500", "truncate", "flip"}, Faulty: 1},
 		{Name: "malformed-manifest", Cap: 1, Layers: []int{3, 5}, Config: 2, Faults: []string{"badjson", "manifest-empty-digest", "manifest-short-digest", "manifest-nohex-digest", "manifest-null-layer", "manifest-dup-layer"}, Faulty: 1},
 	}
 	if thorough {
